@@ -66,7 +66,24 @@ func mutateBytes(r *hx.R, data []byte) []byte {
 	if len(d) == 0 {
 		return []byte{byte(r.Intn(256))}
 	}
-	switch r.Intn(12) {
+	switch r.Intn(15) {
+	case 12: // list entries of the wrong type in front of the real ones: scalars, lists, empty objects
+		x := hx.Pick(r, []string{"3", `"x"`, "[]", "{}", "true", "1.5", "[null]", `{"name":3}`})
+		if bytes.Contains(d, []byte("[")) {
+			d = bytes.Replace(d, []byte("["), []byte("["+x+","), 1+r.Intn(3))
+		} else {
+			d = bytes.Replace(d, []byte("\n- "), []byte("\n- "+x+"\n- "), 1+r.Intn(3))
+		}
+	case 13: // annotations and names of the wrong type
+		repl := [][2]string{{`"annotations":{`, `"annotations":[`}, {`"annotations":{`, `"annotations":{"n":3,`}, {`"annotations":{`, `"annotations":{"n":null,`},
+			{`"annotations":{`, `"annotations":"`}, {"annotations:\n", "annotations: 3 #\n"}, {"annotations:\n", "annotations:\n  - x\n"}, {"annotations:\n", "annotations:\n  n: [1]\n"},
+			{`"name":"`, `"name":{"a":"`}, {`"name":"`, `"name":["`}, {"name: ", "name: [x] #"}, {`"containerEdits":{`, `"containerEdits":[{`}, {`"hooks":[`, `"hooks":{"a":`}}
+		p := hx.Pick(r, repl)
+		d = bytes.Replace(d, []byte(p[0]), []byte(p[1]), 1+r.Intn(2))
+	case 14: // a device annotation / spec annotation that is huge, has an empty or odd key
+		repl := [][2]string{{`"annotations":{`, `"annotations":{"":"",`}, {`"annotations":{`, `"annotations":{"a/b/c":"x",`}, {`"annotations":{`, `"annotations":{"k":"` + strings.Repeat("v", 300000) + `",`}}
+		p := hx.Pick(r, repl)
+		d = bytes.Replace(d, []byte(p[0]), []byte(p[1]), 1)
 	case 0: // bit flips
 		for i, n := 0, 1+r.Intn(4); i < n; i++ {
 			d[r.Intn(len(d))] ^= 1 << uint(r.Intn(8))
@@ -132,6 +149,9 @@ func corpusSpecs(r *hx.R, hosts []hostNode, devDir string) [][]byte {
 			d := specs.Device{Name: fmt.Sprintf("dev%d", j), ContainerEdits: *randEdits(r, hosts, devDir, false)}
 			if len(d.ContainerEdits.Env) == 0 {
 				d.ContainerEdits.Env = []string{"A=b"}
+			}
+			if r.Chance(0.5) {
+				d.Annotations = map[string]string{"example.com/dev": fmt.Sprint(j), "k": ""}
 			}
 			s.Devices = append(s.Devices, d)
 		}
@@ -277,11 +297,297 @@ func (c *cacheChild) stop() {
 	_ = c.cmd.Wait()
 }
 
+// oddOCI makes an OCI spec one no engine would write but the type allows: the same device path, mount destination, cgroup
+// rule or variable twice, empty paths, present-but-empty sections.
+func oddOCI(r *hx.R, s *oci.Spec) {
+	for k, n := 0, 1+r.Intn(3); k < n; k++ {
+		switch r.Intn(8) {
+		case 0:
+			if len(s.Mounts) > 0 {
+				s.Mounts = append(s.Mounts, s.Mounts[r.Intn(len(s.Mounts))])
+			}
+		case 1:
+			if len(s.Mounts) > 0 {
+				s.Mounts = append([]oci.Mount{s.Mounts[len(s.Mounts)-1]}, s.Mounts...)
+			}
+		case 2:
+			if s.Linux != nil && len(s.Linux.Devices) > 0 {
+				s.Linux.Devices = append(s.Linux.Devices, s.Linux.Devices[r.Intn(len(s.Linux.Devices))])
+			}
+		case 3:
+			s.Mounts = append(s.Mounts, oci.Mount{}, oci.Mount{Destination: "/a", Source: "/dup"}, oci.Mount{Destination: "/a"})
+		case 4:
+			if s.Linux == nil {
+				s.Linux = &oci.Linux{}
+			}
+			s.Linux.Devices = append(s.Linux.Devices, oci.LinuxDevice{}, oci.LinuxDevice{Path: "/dev/a"}, oci.LinuxDevice{Path: "/dev/a", Type: "b"})
+		case 5:
+			if s.Process != nil {
+				s.Process.Env = append(s.Process.Env, s.Process.Env...)
+				s.Process.User.AdditionalGids = append(s.Process.User.AdditionalGids, s.Process.User.AdditionalGids...)
+			}
+		case 6:
+			s.Hooks = &oci.Hooks{Prestart: []oci.Hook{}, CreateContainer: []oci.Hook{{}}}
+			s.Process = &oci.Process{Env: []string{}}
+			s.Linux = &oci.Linux{Devices: []oci.LinuxDevice{}, Resources: &oci.LinuxResources{Devices: []oci.LinuxDeviceCgroup{}}, IntelRdt: &oci.LinuxIntelRdt{}}
+		default:
+			if s.Linux != nil && s.Linux.Resources != nil && len(s.Linux.Resources.Devices) > 0 {
+				s.Linux.Resources.Devices = append(s.Linux.Resources.Devices, s.Linux.Resources.Devices...)
+			}
+		}
+	}
+}
+
+// structuralDocs: every JSON corpus document with one list changed - a null, a number, a string, a list or an empty object
+// inserted first, in the middle or last, or the last element replaced by null - for every list of the document (devices,
+// env, deviceNodes, hooks, mounts, additionalGids, args, options ...; Spec level and device level).  A fixed number per
+// kind of list is kept, re-encoded as JSON and YAML in turn.
+func structuralDocs(r *hx.R, corpus [][]byte, tier string) [][]byte {
+	groups := map[string][][]byte{}
+	clone := func(raw []byte) interface{} {
+		var t interface{}
+		_ = json.Unmarshal(raw, &t)
+		return t
+	}
+	for _, raw := range corpus {
+		if len(raw) == 0 || raw[0] != '{' {
+			continue
+		}
+		var paths [][]interface{}
+		var walk func(v interface{}, path []interface{})
+		walk = func(v interface{}, path []interface{}) {
+			switch t := v.(type) {
+			case map[string]interface{}:
+				keys := make([]string, 0, len(t))
+				for k := range t {
+					keys = append(keys, k)
+				}
+				sort.Strings(keys)
+				for _, k := range keys {
+					walk(t[k], append(append([]interface{}{}, path...), k))
+				}
+			case []interface{}:
+				paths = append(paths, append([]interface{}{}, path...))
+				for i, c := range t {
+					walk(c, append(append([]interface{}{}, path...), i))
+				}
+			}
+		}
+		walk(clone(raw), nil)
+		for _, pth := range paths {
+			var names []string
+			for _, e := range pth {
+				if k, ok := e.(string); ok {
+					names = append(names, k)
+				}
+			}
+			tag := strings.Join(names, ".")
+			// edit applies f to the list at pth in a fresh copy of the document and returns the new document
+			edit := func(f func(l []interface{}) []interface{}) interface{} {
+				root := clone(raw)
+				var parent interface{}
+				cur := root
+				for _, e := range pth {
+					parent = cur
+					switch k := e.(type) {
+					case string:
+						cur = cur.(map[string]interface{})[k]
+					case int:
+						cur = cur.([]interface{})[k]
+					}
+				}
+				nl := f(append([]interface{}{}, cur.([]interface{})...))
+				switch k := pth[len(pth)-1].(type) {
+				case string:
+					parent.(map[string]interface{})[k] = nl
+				case int:
+					parent.([]interface{})[k] = nl
+				}
+				return root
+			}
+			n := 0
+			_ = edit(func(l []interface{}) []interface{} { n = len(l); return l })
+			var docs []interface{}
+			for _, pos := range []int{0, n / 2, n} {
+				for _, val := range []interface{}{nil, nil, 3.0, "x", []interface{}{}, map[string]interface{}{}} {
+					pos, val := pos, val
+					docs = append(docs, edit(func(l []interface{}) []interface{} {
+						return append(l[:pos:pos], append([]interface{}{val}, l[pos:]...)...)
+					}))
+				}
+			}
+			if n > 0 {
+				docs = append(docs, edit(func(l []interface{}) []interface{} { l[n-1] = nil; return l }),
+					edit(func(l []interface{}) []interface{} { l[0] = nil; return l }),
+					edit(func(l []interface{}) []interface{} { return []interface{}{nil} }))
+			}
+			for _, d := range docs {
+				j, _ := json.Marshal(d)
+				groups[tag] = append(groups[tag], j)
+			}
+		}
+	}
+	tags := make([]string, 0, len(groups))
+	for t := range groups {
+		tags = append(tags, t)
+	}
+	sort.Strings(tags)
+	per := 8
+	if tier == "thorough" {
+		per = 30
+	}
+	var out [][]byte
+	for _, t := range tags {
+		g := groups[t]
+		for k := 0; k < per && len(g) > 0; k++ {
+			i := r.Intn(len(g))
+			doc := g[i]
+			g = append(g[:i:i], g[i+1:]...)
+			if k%2 == 1 {
+				var tree interface{}
+				_ = json.Unmarshal(doc, &tree)
+				if y, err := yaml.Marshal(tree); err == nil {
+					doc = y
+				}
+			}
+			out = append(out, doc)
+		}
+	}
+	return out
+}
+
+// c08RunDoc: one document through every entry point that takes Spec file content (live: also through the cache child).
+func c08RunDoc(s *hx.Suite, r *hx.R, child **cacheChild, watched, fileDir string, hosts []hostNode, childDeaths *int,
+	add func(entry string, data []byte, cls int, reported bool, wellFormed bool)) func(data []byte, wellFormed, live bool) error {
+	limit := 5 * time.Second
+	sch := schema.BuiltinSchema()
+	nopSch := schema.NopSchema()
+	var nilSch *schema.Schema
+	// a loaded schema that accepts every document: the content checks behind the schema then see documents the builtin
+	// schema would have stopped (annotations, devices and device entries of any type)
+	anyPath := filepath.Join(filepath.Dir(fileDir), "any-schema.json")
+	_ = os.WriteFile(anyPath, []byte("{}"), 0o644)
+	anySch, lerr := schema.Load("file://" + anyPath)
+	if lerr != nil {
+		anySch = nopSch
+	}
+	manual, _ := cdi.NewCache(cdi.WithSpecDirs(fileDir), cdi.WithAutoRefresh(false))
+	return func(data []byte, wellFormed, live bool) error {
+		for _, ext := range []string{".json", ".yaml"} {
+			path := filepath.Join(fileDir, "f"+ext)
+			_ = os.WriteFile(path, data, 0o644)
+			var sp *cdi.Spec
+			var rerr error
+			cls := watchCall(func() { sp, rerr = cdi.ReadSpec(path, 0) }, limit)
+			add("ReadSpec"+ext, data, cls, cls != 0 || rerr != nil || sp != nil, wellFormed)
+			cls = watchCall(func() { _ = sch.ValidateFile(path) }, limit)
+			add("schema.ValidateFile"+ext, data, cls, true, wellFormed)
+			if live {
+				c2, reported := (*child).probe("p"+ext, data)
+				add("live-cache"+ext, data, c2, reported, wellFormed)
+				if c2 != 0 {
+					*childDeaths++
+					(*child).stop()
+					var err error
+					if *child, err = startCacheChild(watched); err != nil {
+						return err
+					}
+				}
+			}
+		}
+		var parsed *specs.Spec
+		cls := watchCall(func() { parsed, _ = cdi.ParseSpec(data) }, limit)
+		add("ParseSpec", data, cls, true, wellFormed)
+		pcls := cls
+		cls = watchCall(func() { _ = sch.ValidateData(data) }, limit)
+		add("schema.ValidateData", data, cls, true, wellFormed)
+		cls = watchCall(func() { _ = sch.ValidateReader(bytes.NewReader(data)) }, limit)
+		add("schema.ValidateReader", data, cls, true, wellFormed)
+		// whatever the text layer made of the document (nil list entries, zero members ...) as a typed Spec: the schema's
+		// Validate (under every schema configuration) and the version requirement
+		if pcls == 0 && parsed != nil {
+			cls = watchCall(func() { _ = sch.Validate(parsed) }, limit)
+			cls = worst(cls, watchCall(func() { _ = nopSch.Validate(parsed) }, limit))
+			cls = worst(cls, watchCall(func() { _ = nilSch.Validate(parsed) }, limit))
+			cls = worst(cls, watchCall(func() { _ = sch.ValidateType(parsed) }, limit))
+			add("schema.Validate(parsed Spec)", data, cls, true, wellFormed)
+			cls = watchCall(func() { _ = specs.ValidateVersion(parsed) }, limit)
+			cls = worst(cls, watchCall(func() { _, _ = specs.MinimumRequiredVersion(parsed) }, limit))
+			cls = worst(cls, watchCall(func() { _, _ = cdi.MinimumRequiredVersion(parsed) }, limit))
+			add("specs.ValidateVersion(parsed Spec)", data, cls, true, wellFormed)
+		}
+		// the other schema configurations: no-op schema, nil *Schema, the package-level functions on the default schema
+		for _, sc := range []struct {
+			n string
+			s *schema.Schema
+		}{{"nop", nopSch}, {"nil", nilSch}, {"loaded-permissive", anySch}} {
+			sc := sc
+			cls = watchCall(func() { _ = sc.s.ValidateData(data) }, limit)
+			cls = worst(cls, watchCall(func() { _ = sc.s.ValidateReader(bytes.NewReader(data)) }, limit))
+			cls = worst(cls, watchCall(func() { _, _ = sc.s.ReadAndValidate(bytes.NewReader(data)) }, limit))
+			cls = worst(cls, watchCall(func() { _ = sc.s.ValidateFile(filepath.Join(fileDir, "f.json")) }, limit))
+			cls = worst(cls, watchCall(func() { _ = sc.s.ValidateFile(filepath.Join(fileDir, "f.yaml")) }, limit))
+			add("schema["+sc.n+"].Validate*", data, cls, true, wellFormed)
+		}
+		cls = watchCall(func() { _ = schema.ValidateData(data) }, limit)
+		cls = worst(cls, watchCall(func() { _ = schema.ValidateReader(bytes.NewReader(data)) }, limit))
+		cls = worst(cls, watchCall(func() { _, _ = schema.ReadAndValidate(bytes.NewReader(data)) }, limit))
+		cls = worst(cls, watchCall(func() { _ = schema.ValidateFile(filepath.Join(fileDir, "f.yaml")) }, limit))
+		cls = worst(cls, watchCall(func() { _, _ = sch.ReadAndValidate(bytes.NewReader(data)) }, limit))
+		add("schema package-level Validate*", data, cls, true, wellFormed)
+		// an explicitly refreshed cache in this process over the two files just written: Refresh, every query, the errors of
+		// every Spec, injection of everything that loaded
+		// (twice: with both files, which define the same devices and so carry conflict errors, and with the JSON file alone)
+		for round := 0; round < 2; round++ {
+			exts := []string{".json", ".yaml"}
+			if round == 1 {
+				_ = os.Remove(filepath.Join(fileDir, "f.yaml"))
+				exts = exts[:1]
+			}
+			reported := true
+			ociA, ociB := &oci.Spec{}, randOCI(r, hosts, false)
+			cls = watchCall(func() {
+				_ = manual.Refresh()
+				errs := manual.GetErrors()
+				loaded := map[string]bool{}
+				for _, v := range manual.ListVendors() {
+					for _, sp := range manual.GetVendorSpecs(v) {
+						loaded[sp.GetPath()] = true
+						_ = manual.GetSpecErrors(sp)
+						for n := range sp.Devices {
+							_ = sp.GetDevice(sp.Devices[n].Name)
+						}
+					}
+				}
+				_ = manual.ListClasses()
+				devs := manual.ListDevices()
+				for _, n := range devs {
+					if d := manual.GetDevice(n); d != nil {
+						_ = d.GetQualifiedName()
+						_ = d.ApplyEdits(&oci.Spec{})
+						_ = d.GetSpec().ApplyEdits(&oci.Spec{})
+					}
+				}
+				_, _ = manual.InjectDevices(ociA, devs...)
+				_, _ = manual.InjectDevices(ociB, append(devs, "a/b=c", "")...)
+				for _, ext := range exts {
+					path := filepath.Join(fileDir, "f"+ext)
+					if _, ok := errs[path]; !ok && !loaded[path] {
+						reported = false
+					}
+				}
+			}, limit)
+			add([]string{"Cache.Refresh(manual, two files)+queries+InjectDevices", "Cache.Refresh(manual, one file)+queries+InjectDevices"}[round], data, cls, cls != 0 || reported, wellFormed)
+		}
+		return nil
+	}
+}
+
 // ---------- the suite ----------
 
 func genC08(r *hx.R, tier, scratch string) (*hx.Suite, error) {
 	s := &hx.Suite{Property: "C08", Imports: []string{"Base", "Parser", "Annotations", "Judge08"}, CaseType: "case08", Judge: "judge08", Shard: 400,
-		Rule: "device-name strings (mutated valid names, separators in every position, random bytes, long strings) through every pkg/parser entry point; annotation maps and keys through ParseAnnotations / AnnotationKey; byte-level stream: mutations (bit flips, truncation, duplication, nulls, deep nesting, huge scalars, YAML anchors/aliases/merge keys/tags, type swaps, numeric extremes, random bytes) of valid JSON and YAML Spec files through cdi.ParseSpec, cdi.ReadSpec (.json and .yaml), a LIVE auto-refresh cache in a child process (must survive and report an error entry or load the file), schema.ValidateData / ValidateReader / ValidateFile; every call under a panic guard and a 5 s watchdog; non-trivial = the input is not a well-formed Spec / name"}
+		Rule: "device-name strings (mutated valid names, separators in every position, random bytes, long strings) through every pkg/parser entry point; annotation maps and keys through ParseAnnotations / AnnotationKey; byte-level stream: mutations (bit flips, truncation, duplication, nulls, deep nesting, huge scalars, YAML anchors/aliases/merge keys/tags, type swaps, numeric extremes, random bytes) of valid JSON and YAML Spec files through cdi.ParseSpec, cdi.ReadSpec (.json and .yaml), a LIVE auto-refresh cache in a child process (must survive and report an error entry or load the file), schema.ValidateData / ValidateReader / ValidateFile; device lists through AnnotationValue / UpdateAnnotations; whatever ParseSpec made of a document through Schema.Validate (builtin, no-op, nil schema) and the version requirement; the no-op schema, a nil *Schema, a loaded schema accepting everything (so that the content checks behind the schema see every parseable document) and the package-level schema functions on every document; an explicitly refreshed cache in this process (Refresh, every query, GetSpecErrors, ApplyEdits and InjectDevices of whatever loaded); OCI specs no engine would write (repeated device paths / destinations / rules, empty paths, present-but-empty sections) x valid edits through the three Apply entry points, applied twice; Cache.InjectDevices from a cache of loaded Specs with unknown and malformed names; mutation kinds: wrong-typed list entries, wrong-typed annotations / names / containerEdits / hooks, odd annotation keys and a 300 kB annotation; every call under a panic guard and a 5 s watchdog; non-trivial = the input is not a well-formed Spec / name"}
 	limit := 5 * time.Second
 	nNames, nAnn, nBytes := 400, 150, 260
 	if tier == "thorough" {
@@ -289,7 +595,7 @@ func genC08(r *hx.R, tier, scratch string) (*hx.Suite, error) {
 	}
 	// --- names
 	alphabet := []string{"a", "Z", "0", "_", "-", ".", ":", "/", "=", " ", "\xc3", "\x00", ",", "vendor.com", "gpu", "dev"}
-	for i := 0; i < nNames; i++ {
+	hostileName := func() string {
 		var b strings.Builder
 		switch r.Intn(4) {
 		case 0:
@@ -312,6 +618,10 @@ func genC08(r *hx.R, tier, scratch string) (*hx.Suite, error) {
 				name = name[:400]
 			}
 		}
+		return name
+	}
+	for i := 0; i < nNames; i++ {
+		name := hostileName()
 		cls := 0
 		cls = worst(cls, watchCall(func() { _, _, _, _ = parser.ParseQualifiedName(name) }, limit))
 		cls = worst(cls, watchCall(func() { _ = parser.IsQualifiedName(name) }, limit))
@@ -355,6 +665,24 @@ func genC08(r *hx.R, tier, scratch string) (*hx.Suite, error) {
 		p, d := hx.Pick(r, alphabet)+hx.Pick(r, alphabet), strings.Repeat(hx.Pick(r, alphabet), r.Intn(70))
 		cls2 := watchCall(func() { _, _ = cdi.AnnotationKey(p, d) }, limit)
 		s.Add(hx.Case{Term: hx.C("NKey", hx.S(p), hx.S(d), hx.Nat(cls2)), Desc: map[string]interface{}{"entry": "AnnotationKey", "plugin": hx.JS(p), "id": hx.JS(d), "class": cls2}, Class: "annotation-key", Nontrivial: true})
+		// AnnotationValue / UpdateAnnotations with device lists nobody validated
+		var ds []string
+		for l, q := 0, r.Intn(4); l < q; l++ {
+			ds = append(ds, hostileName())
+		}
+		cls3 := watchCall(func() { _, _ = cdi.AnnotationValue(ds) }, limit)
+		s.Add(hx.Case{Term: hx.C("NVal", hx.LS(ds), hx.Nat(cls3)), Desc: map[string]interface{}{"entry": "AnnotationValue", "devices": descList(ds), "class": cls3}, Class: "annotation-value", Nontrivial: len(ds) > 0})
+		um := copyMap(m)
+		if r.Chance(0.2) {
+			um = nil
+			items = nil
+		}
+		if r.Chance(0.3) {
+			p, d = hx.Pick(r, []string{"vendor.com-gpu", "a", "p.q"}), hx.Pick(r, []string{"0", "gpu/0", "x_y"})
+		}
+		cls4 := watchCall(func() { _, _ = cdi.UpdateAnnotations(um, p, d, ds) }, limit)
+		s.Add(hx.Case{Term: hx.C("NUpd", hx.L(items), hx.S(p), hx.S(d), hx.LS(ds), hx.Nat(cls4)),
+			Desc: map[string]interface{}{"entry": "UpdateAnnotations", "map": m, "plugin": hx.JS(p), "id": hx.JS(d), "devices": descList(ds), "class": cls4}, Class: "annotation-update", Nontrivial: true})
 	}
 	// --- byte stream
 	devDir := filepath.Join(scratch, "hostdev")
@@ -380,6 +708,7 @@ func genC08(r *hx.R, tier, scratch string) (*hx.Suite, error) {
 			Class: "bytes:" + entry, Key: entry + "|" + string(data), Nontrivial: !wellFormed})
 	}
 	tiny := []string{"", " ", "\n", "\t\n", "\r\n", "  \n  ", "---", "---\n", "...", "#c", "# c\n", "{", "}", "{}", "[", "[]", "null", "~", "\"\"", "0", "-", ":", "?", "|", ">", "\x00", "\xef\xbb\xbf", "\xef\xbb\xbf\n", "{\n", " {}", "\n{}\n", "- ", "a: b", "%"}
+	var runDoc func(data []byte, wellFormed, live bool) error
 	for i := 0; i < nBytes+len(tiny); i++ {
 		var data []byte
 		wellFormed := true
@@ -393,31 +722,19 @@ func genC08(r *hx.R, tier, scratch string) (*hx.Suite, error) {
 				wellFormed = false
 			}
 		}
-		for _, ext := range []string{".json", ".yaml"} {
-			path := filepath.Join(fileDir, "f"+ext)
-			_ = os.WriteFile(path, data, 0o644)
-			var sp *cdi.Spec
-			var rerr error
-			cls := watchCall(func() { sp, rerr = cdi.ReadSpec(path, 0) }, limit)
-			add("ReadSpec"+ext, data, cls, cls != 0 || rerr != nil || sp != nil, wellFormed)
-			cls = watchCall(func() { _ = sch.ValidateFile(path) }, limit)
-			add("schema.ValidateFile"+ext, data, cls, true, wellFormed)
-			c2, reported := child.probe("p"+ext, data)
-			add("live-cache"+ext, data, c2, reported, wellFormed)
-			if c2 != 0 {
-				childDeaths++
-				child.stop()
-				if child, err = startCacheChild(watched); err != nil {
-					return nil, err
-				}
-			}
+		if runDoc == nil {
+			runDoc = c08RunDoc(s, r, &child, watched, fileDir, hosts, &childDeaths, add)
 		}
-		cls := watchCall(func() { _, _ = cdi.ParseSpec(data) }, limit)
-		add("ParseSpec", data, cls, true, wellFormed)
-		cls = watchCall(func() { _ = sch.ValidateData(data) }, limit)
-		add("schema.ValidateData", data, cls, true, wellFormed)
-		cls = watchCall(func() { _ = sch.ValidateReader(bytes.NewReader(data)) }, limit)
-		add("schema.ValidateReader", data, cls, true, wellFormed)
+		if err := runDoc(data, wellFormed, true); err != nil {
+			return nil, err
+		}
+	}
+	// a null entry (and an entry of another type) at every position of every list of pointers (hooks, deviceNodes, mounts)
+	// and of devices / env / options / gids, in every corpus document: through everything that runs in this process
+	for _, doc := range structuralDocs(r, corpus, tier) {
+		if err := runDoc(doc, false, false); err != nil {
+			return nil, err
+		}
 	}
 	// --- a live cache with an external Spec validator (the builtin schema) that is replaced after every file:
 	// documents the library loads but the validator rejects, and the mutation stream again
@@ -457,15 +774,61 @@ func genC08(r *hx.R, tier, scratch string) (*hx.Suite, error) {
 	// --- OCI specs x valid (loadable) edits through ContainerEdits.Apply
 	for i := 0; i < nBytes; i++ {
 		init := randOCI(r, hosts, false)
+		if r.Chance(0.4) {
+			oddOCI(r, init)
+		}
 		e := randEdits(r, hosts, devDir, false)
 		ce := &cdi.ContainerEdits{ContainerEdits: e}
 		valid := false
 		cls := watchCall(func() { valid = ce.Validate() == nil }, limit)
+		which := i % 3
+		entry := []string{"ContainerEdits.Apply", "Device.ApplyEdits", "Spec.ApplyEdits"}[which]
 		if cls == 0 && valid {
-			cls = watchCall(func() { _ = ce.Apply(init) }, limit)
+			apply := func() {
+				switch which {
+				case 0:
+					_ = ce.Apply(init)
+				case 1:
+					_ = (&cdi.Device{Device: &specs.Device{Name: "d", ContainerEdits: *e}}).ApplyEdits(init)
+				default:
+					_ = (&cdi.Spec{Spec: &specs.Spec{ContainerEdits: *e}}).ApplyEdits(init)
+				}
+			}
+			cls = watchCall(apply, limit)
+			// ... and once more into the spec as it is now
+			cls = worst(cls, watchCall(apply, limit))
 		}
 		j, _ := json.Marshal(e)
-		add("ContainerEdits.Apply", j, cls, true, false)
+		add(entry, j, cls, true, false)
+	}
+	// --- injection from a cache of loaded Specs into OCI specs of every shape, requests with unknown and malformed names
+	{
+		injDir := filepath.Join(scratch, "inject")
+		_ = os.MkdirAll(injDir, 0o755)
+		for i := 0; i < len(corpus); i += 2 {
+			_ = os.WriteFile(filepath.Join(injDir, fmt.Sprintf("c%d.json", i)), corpus[i], 0o644)
+		}
+		ic, _ := cdi.NewCache(cdi.WithSpecDirs(injDir), cdi.WithAutoRefresh(false))
+		var known []string
+		_ = watchCall(func() { known = ic.ListDevices() }, limit)
+		for i := 0; i < nBytes/2; i++ {
+			init := randOCI(r, hosts, false)
+			if r.Chance(0.4) {
+				oddOCI(r, init)
+			}
+			var req []string
+			for k, n := 0, r.Intn(5); k < n; k++ {
+				if len(known) > 0 && r.Chance(0.7) {
+					req = append(req, hx.Pick(r, known))
+				} else {
+					req = append(req, hostileName())
+				}
+			}
+			cls := watchCall(func() { _, _ = ic.InjectDevices(init, req...) }, limit)
+			cls = worst(cls, watchCall(func() { _, _ = ic.InjectDevices(init, req...) }, limit))
+			j, _ := json.Marshal(descList(req))
+			add("Cache.InjectDevices", j, cls, true, false)
+		}
 	}
 	// --- typed entry points handed nil / zero values
 	{
